@@ -181,11 +181,11 @@ TIES = {
     "generic_round_trip": {"sources": ["pyjelly/integrations/generic/serialize.py", "pyjelly/integrations/generic/parse.py",
                                        "pyjelly/integrations/generic/generic_sink.py", "pyjelly/serialize/encode.py", "pyjelly/parse/decode.py",
                                        "pyjelly/serialize/streams.py"],
-                           "unit": "generic_serialize", "gen": "GenericSerializeGen", "tie": "GenericRoundTrip", "props": ["C01", "C04"],
+                           "unit": "generic_serialize", "gen": "GenericSerializeGen", "tie": "GenericRoundTrip", "props": ["C01", "C04", "C14"],
                            "needs": ["lookup_enc", "lookup_dec", "options", "encode", "encode_stmt", "flows", "streams", "decode", "decoder_base", "decoder",
                                      "generic_sink", "generic_parse", "generic_serialize"],
                            "theorems": ["grmsg_owner", "generic_reads_written_frames", "C01_source_generic_triples", "C01_source_generic_quads",
-                                        "C01_source_generic_graphs"]},
+                                        "C01_source_generic_graphs", "C04_source_generic_reads_valid_streams", "C14_source_generic_triples"]},
     # clauses of C16 / C13 directly about the translated Decoder, for ANY adapter (no model in the statement, nothing assumed of the adapter)
     "decoder_source": {"sources": ["pyjelly/parse/decode.py"], "unit": "decode", "gen": "DecodeGen", "tie": "DecoderSource", "needs": [],
                        "needs_gen": ["lookup_dec", "options"], "props": ["C16", "C13"],
